@@ -9,6 +9,7 @@ Two oracles on the real code (harness hx_strm, ops p.parse and p.rt):
 The rule text layer (send_rrul / snarf_rrule) is additionally compared with the Lean model Echse.Model.RrText.
 """
 import collections
+import datetime as dt
 import re
 
 from . import common, p_strm, p_rr, p_rrtext, rrgen, rfc5545
@@ -102,7 +103,48 @@ def gen_event(rng, uid, with_rule=True, zoned=None):
         mi, s = divmod(rem, 60)
         sched.append("DURATION:P%s%s" % ("%dD" % d if d else "", ("T" + ("%dH" % h if h else "") + ("%dM" % mi if mi else "") + ("%dS" % s if s else "")) if rem or h else ""))
     meta = {"ds": ds, "rules": [], "cls": set(), "zoned": zoned}
-    if with_rule:
+    shape = rng.random() if with_rule else 1.0
+    if shape < 0.12 and ds[3] is not None:
+        # combinations whose written form is recorded as wanting (findings D161..D165): kept apart from the rest
+        R = rfc5545.Rule
+        wd = dt.date(*ds[:3]).weekday()
+        kind = rng.choice(["count-shared", "exrule-count", "rdate-exrule", "dst-gap-writeout"] if not zoned else ["dst-gap-writeout"])
+        if kind == "count-shared":
+            # every rule begins with DTSTART: the rules share that instant
+            a, b = R(rng.choice(["YEARLY", "MONTHLY", "WEEKLY"])), R(rng.choice(["DAILY", "HOURLY"]))
+            a.count, b.count = rng.choice([2, 3, 7]), rng.choice([3, 5, 9])
+            sched += ["RRULE:" + a.text(), "RRULE:" + b.text()]
+            meta["rules"] += [a, b]
+        elif kind == "exrule-count":
+            a, x = R("DAILY"), R("DAILY")
+            a.count = rng.choice([20, 30])
+            x.byday, x.count = [(0, (wd + 1) % 7), (0, (wd + 3) % 7)], rng.choice([2, 3, 4])
+            sched += ["RRULE:" + a.text(), "EXRULE:" + x.text()]
+            meta["rules"].append(a); meta["xrule"] = x
+        elif kind == "rdate-exrule":
+            a, x = R("YEARLY"), R("WEEKLY")
+            x.byday = [(0, (wd + 2) % 7)]
+            d0 = dt.date(*ds[:3])
+            rd = [d0 + dt.timedelta(days=k) for k in sorted(rng.sample(range(1, 40), 5))] + [d0 + dt.timedelta(days=2), d0 + dt.timedelta(days=9)]
+            sched += ["RRULE:" + a.text(), "EXRULE:" + x.text(),
+                      "RDATE:" + ",".join("%04d%02d%02d" % (d.year, d.month, d.day) + dstxt[8:] + "Z" for d in sorted(set(rd)) if d.year <= 2098)]
+            meta["rules"].append(a); meta["xrule"] = x
+        else:
+            # a rule in local time written out on the eve of the night the clocks go forward
+            zoned = "Europe/Berlin"
+            k = rng.choice([1, 2, 5])
+            d0 = dt.date(2020, 3, 29) - dt.timedelta(days=k)
+            a = R(rng.choice(["DAILY", "DAILY", "HOURLY"]))
+            if a.freq == "HOURLY":
+                d0, k = dt.date(2020, 3, 28), rng.choice([0, 1, 2])
+                sched[0] = "DTSTART;TZID=%s:%04d%02d%02dT223000" % (zoned, d0.year, d0.month, d0.day)
+            else:
+                sched[0] = "DTSTART;TZID=%s:%04d%02d%02dT023000" % (zoned, d0.year, d0.month, d0.day)
+            a.count = 10
+            sched.append("RRULE:" + a.text())
+            meta["rules"].append(a); meta["zoned"] = zoned; meta["ks"] = [k]
+        meta["cls"].add(kind)
+    elif with_rule:
         for _ in range(rng.choice([1, 1, 1, 2])):
             r = rrgen.gen_rule(rng, ds)
             ext, cls = gen_ext(rng, r, ds)
@@ -190,6 +232,7 @@ def run(ctx):
     cals = [gen_calendar(rng, i) for i in range(n)]
     fails = []
     known = collections.Counter()
+    known_classes = {k.get("class") for k in common.load_known("C05") if k.get("status") == "known"}
     # 1. field mapping
     ops = ["p.parse " + t.encode("latin-1").hex() for t, _, _ in cals]
     impl, st, err = ctx.impl(exe, ops, timeout=300)
@@ -228,7 +271,7 @@ def run(ctx):
     ks = [0, 1, 5, 63, 64, 65, 130, 200]
     rops, rmeta = [], []
     for i, (t, exp, meta) in enumerate(cals):
-        for k in rng.sample(ks, 3 if thorough else 2) + [0]:
+        for k in meta.get("ks") or (rng.sample(ks, 3 if thorough else 2) + [0]):
             rops.append("p.rt %s %d %d" % (t.encode("latin-1").hex(), k, nocc))
             rmeta.append((i, k))
     rimpl, st2, err2 = ctx.impl(exe, rops, timeout=600)
@@ -273,6 +316,10 @@ def run(ctx):
                 cls.add("phase")
             if "phase" in cls:
                 known["phase"] += 1          # finding D15: INTERVAL phase of secondary / shifted rules is not kept
+                continue
+            special = cls & {"count-shared", "exrule-count", "rdate-exrule", "dst-gap-writeout"}
+            if special and special <= known_classes:
+                known[min(special)] += 1     # findings D161..D164: one shape each
                 continue
             fails.append((rops[j], "%s [%s]\n--- input\n%s--- written\n%s" % (why, ",".join(sorted(cls)) or "plain", t, text)))
     # 3. the rule text layer against the Lean model (what C05.rule_text_roundtrip is about)
